@@ -5,7 +5,10 @@ import MazeVerif.Props.C02
 
 Model: `Model/Dataset.lean`. The per-item theorem holds for every well-formed maze whose metadata component is sound
 (supplied for the generators by C12), every endpoint choice the code can make, every legal A* pick sequence and every
-fuel — hence for whatever draw stream a serial run or a worker process happens to use. -/
+fuel — hence for whatever draw stream a serial run or a worker process happens to use. The generator instantiations
+(`C03_*_component_ok`) hold for EVERY `start_coord` a config's `maze_ctor_kwargs` may carry: one outside the grid makes
+the generator raise ValueError at generation time (`C01_start_rejected`; no dataset is produced), any other start is in
+the grid (`C01_start_in_grid_of_success`). -/
 namespace MZ
 open MZ.AStar
 
@@ -118,15 +121,14 @@ theorem C03_count {α} (n : Nat) (item : Nat → α) :
 
 /-- instantiation for gen_dfs / gen_prim (every argument combination): the component read off the metadata is sound -/
 theorem C03_dfs_component_ok {rows cols : Nat} (hr : 0 < rows) (hc : 0 < cols) {a given draws fuel o}
-    (hg : ∀ c, given = some c → inGrid rows cols c)
     (h : genDfsTop rows cols a given draws fuel = some o) :
     WF rows cols o.edges ∧ ComponentOK rows cols o.edges (metaComponent rows cols o.fullyConnected o.visited) := by
-  refine ⟨(C01_dfs_wf hr hc hg h).1, ?_, C12_endpoints_reachable hr hc hg h⟩
+  refine ⟨(C01_dfs_wf hr hc h).1, ?_, C12_endpoints_reachable hr hc h⟩
   intro c hcm
   unfold metaComponent at hcm
   split at hcm
   · exact mem_cells.mp hcm
-  · exact (C12_dfs_tree_on_visited hr hc hg h).2.2.2.2.2.1 c hcm
+  · exact (C12_dfs_tree_on_visited hr hc h).2.2.2.2.2.1 c hcm
 
 /-- instantiation for gen_wilson: flagged fully connected, component = all cells -/
 theorem C03_wilson_component_ok {rows cols : Nat} (hr : 0 < rows) (hc : 0 < cols) {draws fuel s}
@@ -139,16 +141,11 @@ theorem C03_wilson_component_ok {rows cols : Nat} (hr : 0 < rows) (hc : 0 < cols
   exact hsp.2.2.2.1 u v (mem_cells.mp hu) (mem_cells.mp hv)
 
 private theorem startCoord_grid {rows cols : Nat} (hr : 0 < rows) (hc : 0 < cols) {given draws c rest}
-    (hg : ∀ c, given = some c → inGrid rows cols c)
-    (h : startCoord rows cols given draws = some (c, rest)) : inGrid rows cols c := by
-  unfold startCoord at h
-  split at h
-  · simp only [Option.some.injEq, Prod.mk.injEq] at h; obtain ⟨rfl, _⟩ := h; exact hg _ rfl
-  · exact C01_start_in_grid hr hc h
+    (h : startCoord rows cols given draws = some (c, rest)) : inGrid rows cols c :=
+  startCoord_in_grid' hr hc h
 
 /-- instantiation for gen_percolation (no flag: the component is the recorded visited set) -/
 theorem C03_percolation_component_ok {rows cols : Nat} (hr : 0 < rows) (hc : 0 < cols) {p given draws rands fuel o}
-    (hg : ∀ c, given = some c → inGrid rows cols c)
     (h : genPercolationTop rows cols p given draws rands fuel = some o) :
     WF rows cols o.edges ∧ ComponentOK rows cols o.edges (metaComponent rows cols false o.visited) := by
   have hwf := (C01_percolation_wf h).1
@@ -162,25 +159,24 @@ theorem C03_percolation_component_ok {rows cols : Nat} (hr : 0 < rows) (hc : 0 <
       · simp at h
       · split at h
         · simp at h
-        · simp only [Option.some.injEq] at h; subst h; exact startCoord_grid hr hc hg hst
+        · simp only [Option.some.injEq] at h; subst h; exact startCoord_grid hr hc hst
   exact ⟨hwf, by simpa [metaComponent, ComponentOK] using C12_component_of_start_ok hwf hstart hvis⟩
 
 /-- instantiation for gen_dfs_percolation: dfs flag (sound by `C12_dfsperc_flag_sound`) or the recomputed visited set -/
 theorem C03_dfsperc_component_ok {rows cols : Nat} (hr : 0 < rows) (hc : 0 < cols) {p a given draws rands fuel o}
-    (hg : ∀ c, given = some c → inGrid rows cols c)
     (h : genDfsPercolationTop rows cols p a given draws rands fuel = some o) :
     WF rows cols o.edges ∧ ComponentOK rows cols o.edges (metaComponent rows cols o.fullyConnected o.visited) := by
-  have hwf := (C01_dfsperc_wf hr hc hg h).1
+  have hwf := (C01_dfsperc_wf hr hc h).1
   refine ⟨hwf, ?_⟩
   cases hfl : o.fullyConnected with
   | true =>
-    have hall := C12_dfsperc_flag_sound hr hc hg h hfl
+    have hall := C12_dfsperc_flag_sound hr hc h hfl
     refine ⟨fun c hcm => mem_cells.mp (by simpa [metaComponent] using hcm), ?_⟩
     intro u hu v hv
     simp only [metaComponent, if_true] at hu hv
     exact hall u v (mem_cells.mp hu) (mem_cells.mp hv)
   | false =>
-    have hvis := C12_dfsperc_visited_exact hr hc hg h
+    have hvis := C12_dfsperc_visited_exact hr hc h
     have hstart : inGrid rows cols o.start := by
       unfold genDfsPercolationTop at h
       split at h
@@ -193,17 +189,26 @@ theorem C03_dfsperc_component_ok {rows cols : Nat} (hr : 0 < rows) (hc : 0 < col
           · simp only at h
             split at h
             · simp at h
-            · simp only [Option.some.injEq] at h; subst h; exact startCoord_grid hr hc hg hst
+            · simp only [Option.some.injEq] at h; subst h; exact startCoord_grid hr hc hst
     simpa [metaComponent, ComponentOK] using C12_component_of_start_ok hwf hstart hvis
+
+/-- a config whose `maze_ctor_kwargs` carries a `start_coord` outside the grid produces NO item: every generator that
+    takes a start coordinate is in its error branch (the ValueError of `_random_start_coord`) for every draw stream —
+    restated from `C01_start_rejected`; it is the only case the `…_component_ok` theorems above do not speak about -/
+theorem C03_rejected_start_no_item {rows cols : Nat} {given : Option Cell} (hrej : StartRejected rows cols given) :
+    (∀ a draws fuel, genDfsTop rows cols a given draws fuel = none ∧ genPrimTop rows cols a given draws fuel = none) ∧
+    (∀ p draws rands fuel, genPercolationTop rows cols p given draws rands fuel = none) ∧
+    (∀ p a draws rands fuel, genDfsPercolationTop rows cols p a given draws rands fuel = none) :=
+  ⟨fun a draws fuel => ⟨(C01_start_rejected hrej).2.1 a draws fuel, (C01_start_rejected hrej).2.2.1 a draws fuel⟩,
+   (C01_start_rejected hrej).2.2.2.1, (C01_start_rejected hrej).2.2.2.2⟩
 
 /-- full per-item statement for the dfs family, end to end -/
 theorem C03_dfs_item {rows cols : Nat} (hr : 0 < rows) (hc : 0 < cols) {a given draws fuel o opts s e picks fuel' sol}
-    (hg : ∀ c, given = some c → inGrid rows cols c)
     (h : genDfsTop rows cols a given draws fuel = some o)
     (hs : solveItem rows cols o.edges (metaComponent rows cols o.fullyConnected o.visited) opts s e picks fuel' = .ok sol) :
     ItemOK rows cols o.edges s e sol ∧
     EndpointsHonoured rows cols o.edges (metaComponent rows cols o.fullyConnected o.visited) opts s e :=
-  C03_item (C03_dfs_component_ok hr hc hg h).1 (C03_dfs_component_ok hr hc hg h).2 hs
+  C03_item (C03_dfs_component_ok hr hc h).1 (C03_dfs_component_ok hr hc h).2 hs
 
 theorem C03_wilson_item {rows cols : Nat} (hr : 0 < rows) (hc : 0 < cols) {draws fuel w opts s e picks fuel' sol}
     (h : genWilsonTop rows cols draws fuel = some w)
@@ -215,5 +220,10 @@ theorem C03_wilson_item {rows cols : Nat} (hr : 0 < rows) (hc : 0 < cols) {draws
 example : (solveItem 2 2 [(0,0,0),(1,0,0),(0,0,1)] (cells 2 2) {} (1,0) (1,1) [(1,0),(0,0),(0,1),(1,1)] 9).toOption
     = some [(1,0),(0,0),(0,1),(1,1)] := by decide
 example : endpointsOK 2 2 [(0,0,0),(1,0,0),(0,0,1)] (cells 2 2) { deadendStart := true, notEqual := true } (1,0) (1,1) = true := by decide
+-- a config with a fixed in-grid `start_coord`: the generator returns and the component is read off its metadata;
+-- with a start outside the grid there is nothing to solve
+example : (genDfsTop 2 2 (defaultArgs 2 2 false) (some (1, 1)) (List.replicate 16 0) 8).map
+    (fun o => (metaComponent 2 2 o.fullyConnected o.visited).length) = some 4 := by decide
+example : StartRejected 2 2 (some (2, 0)) ∧ genDfsTop 2 2 (defaultArgs 2 2 false) (some (2, 0)) (List.replicate 16 0) 8 = none := by decide
 
 end MZ
